@@ -78,6 +78,7 @@ M = {
  "c10-unfix-d4": ("peer.go", "func (p *peer) getFSMTransitionCh(f *fsm) chan stateTransition {\n\treturn p.transitionCh[f.dir]\n}", "func (p *peer) getFSMTransitionCh(f *fsm) chan stateTransition {\n\tif f == p.fsms[out] {\n\t\treturn p.transitionCh[out]\n\t}\n\treturn p.transitionCh[in]\n}", ["C10"]),
  "c10-unfix-d8": ("fsm.go", "\t<-kaManagerDoneCh\n", "", ["C10"]),
  "c12-d9-collision-site-only": ("peer.go", "\t\t// disable the other fsm\n\t\tif p.disableOtherFSM(i) {\n\t\t\tp.sendTransitionToFSM(i, t)\n\t\t}", "\t\t// disable the other fsm\n\t\tp.disableFSM(other(i))\n\t\tp.sendTransitionToFSM(i, t)", ["C12"]),
+ "c10-unfix-d10": ("fsm.go", "\t\t\t(t.from > activeState || toBefore == openSentState) {", "\t\t\t(t.from > activeState) {", ["C10"]),
  "c12-unfix-d9": ("peer.go", "\t\tp.handleError(other(i), o.unreportedErr)\n", "\t\t_ = o.unreportedErr\n", ["C12"]),
  "c05-unfix-d2b": ("fsm.go", "\t\t\t\t\tif f.holdTime != 0 {\n\t\t\t\t\t\tf.drainAndResetHoldTimer()\n\t\t\t\t\t}\n\t\t\t\t\treturn establishedState, nil", "\t\t\t\t\tf.drainAndResetHoldTimer()\n\t\t\t\t\treturn establishedState, nil", ["C06", "C05"]),
 }
